@@ -55,23 +55,25 @@ pub fn execute(ctx: &mut Ctx, lines: &[String]) -> Vec<String> {
                 }
                 hex(&got)
             }
-            ["RECURSE", mode, target, ..] if t.len() <= 4 => {
+            ["RECURSE", mode, target, ..] if t.len() <= 5 => {
                 let depth: u32 = t.get(3).and_then(|d| d.parse().ok()).unwrap_or(1);
-                let (finished, data) = crate::props::robust::run_recurse(&ctx.work, mode, target, 4, depth);
+                let crlf = t.get(4) == Some(&"crlf");
+                let (finished, data) = crate::props::robust::run_recurse(&ctx.work, mode, target, 4, depth, crlf);
                 ctx.report.count(&format!("recurse.{}.{target}", mode.split(':').next().unwrap()));
                 ctx.report.nontrivial_case(lines);
                 if !finished {
                     // reproduce once with a doubled bound before calling it a hang
-                    let (again, _) = crate::props::robust::run_recurse(&ctx.work, mode, target, 8, depth);
+                    let (again, _) = crate::props::robust::run_recurse(&ctx.work, mode, target, 8, depth, crlf);
                     if !again {
                         ctx.report.fail(&case_id, &format!("recursion-hangs-{mode}-{target}"), &format!("line {li}: a log call from within Display (mode {mode}, output {target}) did not return within 8 s (twice)"));
                         out.push("hang".into());
                         continue;
                     }
                 }
-                let mut want = b"inner1\n".to_vec();
-                for j in 2..=depth { want.extend(format!("inner{j} x{}\n", j - 1).bytes()); }
-                want.extend(format!("outer x{depth}\nplain\n").bytes());
+                let le = if crlf { "\r\n" } else { "\n" };
+                let mut want = format!("inner1{le}").into_bytes();
+                for j in 2..=depth { want.extend(format!("inner{j} x{}{le}", j - 1).bytes()); }
+                want.extend(format!("outer x{depth}{le}plain{le}").bytes());
                 if finished && data != want {
                     ctx.report.fail(&case_id, "recursion-output", &format!("line {li}: recursive logging (mode {mode}, output {target}) produced {:?}", String::from_utf8_lossy(&data)));
                 }
